@@ -97,12 +97,15 @@ pub fn encode(spec: &WavSpec) -> Wav {
 				expected.push((v as f64 / 2147483648.0) as f32);
 			}
 			Enc::F32 => {
-				let v = if spec.ramp { (frame + 1) as f32 / 8388608.0 } else { ((r >> 40) as f32 / 8388608.0) - 1.0 };
+				// (float files may hold samples beyond full scale: a quarter of the noise files do, up to +-4)
+				let over = if spec.seed % 4 == 1 { 4.0 } else { 1.0 };
+				let v = if spec.ramp { (frame + 1) as f32 / 8388608.0 } else { (((r >> 40) as f32 / 8388608.0) - 1.0) * over };
 				data.extend_from_slice(&v.to_le_bytes());
 				expected.push(v);
 			}
 			Enc::F64 => {
-				let v = if spec.ramp { frame as f64 / 8388608.0 } else { ((r >> 11) as f64 / (1u64 << 52) as f64) - 1.0 };
+				let over = if spec.seed % 4 == 1 { 4.0 } else { 1.0 };
+				let v = if spec.ramp { frame as f64 / 8388608.0 } else { (((r >> 11) as f64 / (1u64 << 52) as f64) - 1.0) * over };
 				data.extend_from_slice(&v.to_le_bytes());
 				expected.push(v as f32);
 			}
@@ -313,7 +316,7 @@ impl Property for C18 {
 		"C18"
 	}
 	fn rule(&self) -> &'static str {
-		"four kinds of cases. (1) An independent RIFF/WAVE writer produces PCM 8/16/24/32-bit integer and 32/64-bit float files, 1..6 channels (plain and extensible headers), 0..5000 frames, any sample rate; StaticSoundData::from_cursor must return exactly the encoded sample rate, frame count and samples (exact for <= 24-bit integers and f32, 1 ulp for 32-bit integers and f64), mono duplicated, more than two channels rejected with the documented error. (2) The same bytes through StreamingSoundData::from_cursor, played at rate 1 on a device at the file's rate (decoder kept ahead through hook H2), must produce exactly the frames of the static decode, from any start position; with index-coded content and a sequence of seek_to calls (two fifths of them to packet starts, half of them preceded in the same gap by a seek_by, so that the decoder seeks twice in one step) every run of output frames after a seek must continue the file contiguously from the requested frame; a third of the seek cases play inside a loop region (anywhere in the file, 1 frame to the whole file long), two thirds of their seeks aim at or past the loop end, where the target is folded back into the region: the only discontinuities allowed are the loop's own wrap and jumps to a (folded) target, and a valid file never reports a decoder error. (3) Every single-byte corruption (header-biased) and every truncation point of a valid file must give an error value, or - for truncations - a prefix of the original frames, and never more frames than the data chunk can hold; never a panic, and the watchdog catches hangs. (4) The audio files shipped under crates/examples/assets (Ogg Vorbis, WAV) are streamed and loaded and compared frame for frame, from any start position, a third of them looping over a generated region (every wrap is a seek into the middle of a compressed packet). Non-trivial = a multi-packet file (> 1152 frames), a seek, or a corruption inside the header; distinct = distinct decoded choices."
+		"four kinds of cases. (1) An independent RIFF/WAVE writer produces PCM 8/16/24/32-bit integer and 32/64-bit float files (half of the float noise files with samples beyond full scale, up to +-4), 1..6 channels (plain and extensible headers), 0..5000 frames, any sample rate; StaticSoundData::from_cursor must return exactly the encoded sample rate, frame count and samples (exact for <= 24-bit integers and f32, 1 ulp for 32-bit integers and f64), mono duplicated, more than two channels rejected with the documented error. (2) The same bytes through StreamingSoundData::from_cursor, played at rate 1 on a device at the file's rate (decoder kept ahead through hook H2), must produce exactly the frames of the static decode, from any start position; with index-coded content and a sequence of seek_to calls (two fifths of them to packet starts, half of them preceded in the same gap by a seek_by, so that the decoder seeks twice in one step) every run of output frames after a seek must continue the file contiguously from the requested frame; a third of the seek cases play inside a loop region (anywhere in the file, 1 frame to the whole file long), two thirds of their seeks aim at or past the loop end, where the target is folded back into the region: the only discontinuities allowed are the loop's own wrap and jumps to a (folded) target, and a valid file never reports a decoder error. (3) Every single-byte corruption (header-biased) and every truncation point of a valid file must give an error value, or - for truncations - a prefix of the original frames, and never more frames than the data chunk can hold; never a panic, and the watchdog catches hangs. (4) The audio files shipped under crates/examples/assets (Ogg Vorbis, WAV) are streamed and loaded and compared frame for frame, from any start position, a third of them looping over a generated region (every wrap is a seek into the middle of a compressed packet). Non-trivial = a multi-packet file (> 1152 frames), a seek, or a corruption inside the header; distinct = distinct decoded choices."
 	}
 	fn assumptions(&self) -> Vec<String> {
 		vec![
